@@ -126,6 +126,9 @@ pub mod env {
         /// collection; goes through actor_get_node_id / to_sorted_key / update_validator).  ASSUMED: does not touch the
         /// ledger of resources nor the validator's State field.  The `requires` is an OBLIGATION for the callers: the
         /// stake written to the index is the balance of the stake vault.
+        /// the key under which the consensus manager's by-stake index holds THIS validator after an index_update
+        /// with the given registration flag and stake (None: not in the index); the address part is the actor's own
+        pub uninterp spec fn index_key_for(registered: bool, stake: Decimal) -> Option<SortedKey>;
         #[verifier::external_body]
         pub fn index_update<Y: SystemApi<RuntimeError>>(validator: &ValidatorSubstate, new_registered: bool, new_stake_amount: Decimal, api: &mut Y) -> (r: Result<Option<SortedKey>, RuntimeError>)
             requires
@@ -133,6 +136,7 @@ pub mod env {
                 new_stake_amount == old(api).st().world.vaults[validator.stake_xrd_vault_id].amount,
                 new_registered == validator.is_registered,
             ensures r is Ok ==> final(api).st() == old(api).st(),
+                r matches Ok(k) ==> k == Self::index_key_for(new_registered, new_stake_amount),
         { unimplemented!() }
     }
 
@@ -911,8 +915,9 @@ pub mod unit {
                                   .insert(lv, Holding { resource: su, amount: Decimal::of(w.vaults[lv].amount.v() + m) })
         &&& w2.supply =~= w.supply.insert(su, Some(Decimal::of(w.supply[su]->Some_0.v() + m)))
         &&& w2.buckets =~= w.buckets.remove(bucket)
-        // the validator's state is as before except for the cached index key
-        &&& s2.vstate == (ValidatorSubstate { sorted_key: s2.vstate.sorted_key, ..v })
+        // the validator's state is as before except for the cached index key, which is the key the by-stake index now
+        // holds for this validator (a stale cached key makes the next Remove / UpdateStake miss the entry)
+        &&& s2.vstate == (ValidatorSubstate { sorted_key: ValidatorBlueprint::index_key_for(v.is_registered, Decimal::of(w.vaults[sv].amount.v() + amount)), ..v })
         &&& s2.handles =~= s.handles && s2.calls == s.calls && s2.actor_vaults == s.actor_vaults
     }
     /// C42 (c) what a successful apply_emission did
@@ -1026,7 +1031,7 @@ pub mod unit {
         &&& in_dec(t + x) && in_dec(sus + m) && in_dec(m)
         // never more units than the exact proportion x * S / T
         &&& m >= 0 && m * t <= x * sus
-        &&& s2.vstate == (ValidatorSubstate { sorted_key: s2.vstate.sorted_key, ..v })
+        &&& s2.vstate == (ValidatorSubstate { sorted_key: ValidatorBlueprint::index_key_for(v.is_registered, Decimal::of(t + x)), ..v })
         &&& s2.calls == s.calls && s2.actor_vaults == s.actor_vaults
     }
     /// C42 on the ledger: right after a successful stake of x XRD, the minted units are worth (by the validator's own
